@@ -1219,6 +1219,8 @@ class Reaction(Object):
             for the reaction.
         """
         old_coefficients = self.metabolites
+        # the recorded undo must not see later changes of the given dictionary
+        metabolites_to_add = dict(metabolites_to_add)
         new_metabolites = []
         _id_to_metabolites = dict([(x.id, x) for x in self._metabolites])
 
